@@ -66,6 +66,7 @@ def run(chk):
     plan = []
     nworlds = 30 if quick else 400
     for wi in range(nworlds):
+        rng.seed("%d/c11-1/%d" % (chk.seed, wi))      # every world has its own stream: families do not disturb each other
         sph = rng.random() < 0.35
         mode = rng.choice(["random", "random", "affine", "zero", "corner"])
         dense = wi % 5 == 3
